@@ -531,9 +531,10 @@ CHECKS = {
         "eng_ident", "exploration",
         "the parent opens 1-300 extra descriptors (files, pipes, sockets; half without close-on-exec) at random numbers up to "
         "limit-1 (always including limit-1 in a third of the cases) under RLIMIT_NOFILE in {64,256,1024,4096,20000}, with 8 "
-        "redirect families and closed std descriptors; the helper lists /proc/self/fd before opening anything; non-trivial = "
+        "redirect families and closed std descriptors; the helper lists /proc/self/fd before opening anything; a seventh of the children are started in fork mode "
+        "(their side of the fork may keep what the streams were made from and the exit handle, nothing else of the parent); non-trivial = "
         "a child reported its table; every case draws its own descriptor set, so distinct = cases (concurrent starts from threads are exercised by C20's engine)",
-        {"children_checked": 600, "noncloexec_extra": 2000, "limit_minus_1_cases": 100, "limits": 3, "win_handle_cases": 5000},
+        {"children_checked": 600, "noncloexec_extra": 2000, "limit_minus_1_cases": 100, "limits": 3, "win_handle_cases": 5000, "fork_mode_children_checked": 60},
         assumptions=KERNEL_TRUST + ["Windows half only at the CreateProcessW boundary: the inheritance list must be in force (bInheritHandles, EXTENDED_STARTUPINFO_PRESENT, attribute list) and hold exactly the three stream handles and the exit handle"],
         extra=win_handles_pass),
     "C03": scen_check(
